@@ -62,6 +62,14 @@ def case_strategy(draw, ctx):
                 n += f["thickness"]
         # QuasiUniformGrid rejects odd cell counts; the other descriptions are compared on odd counts too
         shape.append(n + (n % 2) if variants[0] == "quasi" else n)
+    d_spacing = draw(st.sampled_from(SPACINGS))
+    if variants[0] == "realvol" and draw(st.booleans()):
+        # a volume given by its physical length n*d: pick a (d, n) whose float quotient n*d/d lands one ulp BELOW n
+        # (2.2e-8 with n = 7 or 14), where truncation and rounding of the cell count differ
+        d_spacing = 2.2e-8
+        free = [a for a in range(3) if all(faces[f"{sd}_{scenes.AXNAME[a]}"]["kind"] != "pml" for sd in ("min", "max"))]
+        if free:
+            shape[free[draw(st.integers(0, len(free) - 1))]] = 7
     steps = draw(st.integers(10, 30))
     has_bloch = any(f["kind"] == "bloch" for f in faces.values())
     interior = scenes.interior_range(shape, faces)
@@ -84,7 +92,7 @@ def case_strategy(draw, ctx):
         if dd["type"] == "phasor" and not scenes.switch_on_steps(dd["switch"], steps):
             dd["switch"] = {}
     spec = {
-        "d": draw(st.sampled_from(SPACINGS)),
+        "d": d_spacing,
         "shape": shape,
         "steps": steps,
         "courant": draw(st.sampled_from([0.5, 0.8, 0.99])),
